@@ -90,6 +90,17 @@ func (db *DB) repairCompactions() error {
 		absReplacementPath := filepath.Join(db.basePath, meta.ReplacementPath)
 
 		log.Printf("finishing compaction in %s into %s", absWritePath, absReplacementPath)
+		// the rename comes last: it moves the success flag along, which is the only record of the tables that still have to
+		// go. Should we get killed in the middle of the removals, the next Open finds the flag again and starts over.
+		for _, sstablePath := range meta.SstablePaths {
+			if sstablePath != meta.ReplacementPath {
+				err := os.RemoveAll(filepath.Join(db.basePath, sstablePath))
+				if err != nil {
+					return err
+				}
+			}
+		}
+
 		err := os.RemoveAll(absReplacementPath)
 		if err != nil {
 			return err
@@ -98,15 +109,6 @@ func (db *DB) repairCompactions() error {
 		err = os.Rename(absWritePath, absReplacementPath)
 		if err != nil {
 			return err
-		}
-
-		for _, sstablePath := range meta.SstablePaths {
-			if sstablePath != meta.ReplacementPath {
-				err := os.RemoveAll(filepath.Join(db.basePath, sstablePath))
-				if err != nil {
-					return err
-				}
-			}
 		}
 	}
 
